@@ -90,6 +90,28 @@ def _sort_keys(dic: dict) -> dict:
     return dict(sorted(dic.items(), key=raw))
 
 
+def _reject_bool(obj):
+    """
+    Raise TypeError if obj contains a boolean.
+
+    Bencode has no boolean type; the encoder would write it as the
+    undecodable integer `iTruee`.
+
+    Parameters
+    ----------
+    obj : any
+        nested metafile data
+    """
+    if isinstance(obj, bool):
+        raise TypeError("boolean values cannot be bencoded")
+    if isinstance(obj, dict):
+        for val in obj.values():
+            _reject_bool(val)
+    elif isinstance(obj, (list, tuple)):
+        for val in obj:
+            _reject_bool(val)
+
+
 def edit_torrent(metafile: str, args: dict) -> dict:
     """
     Edit the properties and values in a torrent meta file.
@@ -148,6 +170,7 @@ def edit_torrent(metafile: str, args: dict) -> dict:
     meta = _sort_keys(meta)
     # encode first, write to a temporary sibling, then swap it into place, so
     # that the path never holds anything but a complete metafile.
+    _reject_bool(meta)
     encoded = pyben.dumps(meta)
     folder = os.path.dirname(os.path.abspath(metafile))
     fd, temp = tempfile.mkstemp(dir=folder, suffix=".tmp")
